@@ -97,7 +97,7 @@ func HarnessDispatch() {
 	srv.Register("C", &nsA{c, "C"}) // same Go type as namespace A, other instance
 	regs := []regd{{"A", "Bar", "A.Bar;"}, {"A", "Foo", "A.Foo;"}, {"B", "Foo", "B.Foo;"}, {"B", "Qux", "B.Qux;"}, {"C", "Bar", "C.Bar;"}, {"C", "Foo", "C.Foo;"}}
 	aliases := map[string]string{}
-	switch verif.Choice("alias", 7) {
+	switch verif.Choice("alias", 8) {
 	case 5: // an alias whose target is itself only an alias: aliases are not transitive
 		aliases["old"] = "al"
 		aliases["al"] = f.spec("B", "Foo")
@@ -105,6 +105,8 @@ func HarnessDispatch() {
 		aliases["al"] = f.spec("A", "Foo")
 		aliases["al2"] = f.spec("A", "Foo")
 		aliases["al3"] = "al2"
+	case 7: // an alias longer than every registered name
+		aliases["legacy_endpoint_getFoo"] = f.spec("B", "Foo")
 	case 1: // alias to existing
 		aliases["al"] = f.spec("B", "Qux")
 	case 2: // alias to missing
@@ -119,6 +121,19 @@ func HarnessDispatch() {
 	}
 
 	m := verif.String("method", verif.Bound("mlen", 6))
+	if len(aliases) > 0 && verif.Bool("call_an_alias_by_name") {
+		// (alias names may be longer than the symbolic method strings explored)
+		keys := make([]string, 0, len(aliases))
+		for k := range aliases {
+			keys = append(keys, k)
+		}
+		for i := 1; i < len(keys); i++ { // (insertion sort: map order differs between runs)
+			for j := i; j > 0 && keys[j] < keys[j-1]; j-- {
+				keys[j], keys[j-1] = keys[j-1], keys[j]
+			}
+		}
+		m = keys[verif.Choice("which_alias", len(keys))]
+	}
 	// params that fit Foo: [7]; the arity part is in HarnessArity
 	body, _ := json.Marshal(map[string]interface{}{"jsonrpc": "2.0", "id": 1, "method": m, "params": []interface{}{7}})
 	var out bytes.Buffer
